@@ -268,6 +268,18 @@ def publisher_templates(za):
     return out, node, len(paths)
 
 
+def norm_empty(t):
+    """the template `t` with its symbol replaced by the empty string"""
+    out = []
+    for k, v in t:
+        if k == 'lit':
+            if out and out[-1][0] == 'lit':
+                out[-1] = ('lit', out[-1][1] + v)
+            else:
+                out.append((k, v))
+    return tuple(out)
+
+
 @rule('C02.R5', 'wire encoding of topic names agrees between publisher (send_maybe), subscriber prefix (Sender.__init__) and decoder (recv_once), and the prefix match is narrowed to whole names: a topic the explicit subscription does not list is dropped by the receiver')
 def r5(rr, repo):
     za = anchors(repo)
@@ -280,6 +292,16 @@ def r5(rr, repo):
     rr.note('publisher: ' + ', '.join(f'{k}: {show(v)}' for k, v in P.items()))
     rr.ob("publisher frames a normal topic as delim + T + delim", P['normal'] == (('lit', '/'), ('sym', 'T'), ('lit', '/')), za.mod, pnode, witness=show(P['normal']), key='pub-normal')
     rr.ob("publisher frames a hidden ('_') topic as T + delim (no leading delimiter, so subscribe-all does not see it)", P['hidden'] == (('sym', 'T'), ('lit', '/')), za.mod, pnode, witness=show(P['hidden']), key='pub-hidden')
+    # a name whose frame IS the control frame cannot be told from it by any receiver: with the framing above that is the empty name ('/' + '' + '/' == '//'); the publisher refuses it, before it
+    # changes any state (the clients are marked as served just before the frames go out)
+    collide = norm_empty(P['normal']) == P['control']
+    if collide:
+        refusals = [r for r in walk_scope(za.S_maybe) if isinstance(r, ast.Raise) and any(p_ and "'' in topicmsgs" in t_.replace('"', "'") for t_, p_ in q.effective_guards(r, za.S_maybe))]
+        marks = [c for c in q.calls_in(za.S_maybe, into_functions=False) if U(c.func).endswith('Client')]
+        pubs = [c for c in q.calls_in(za.S_maybe, into_functions=False) if isinstance(c.func, ast.Attribute) and c.func.attr == 'send_multipart' and 'hello' not in U(c).lower()]
+        first_effect = min([c.lineno for c in marks + pubs] or [10 ** 9])
+        rr.ob("the one topic name whose frame coincides with the control frame (the empty name) is refused by the publisher before anything is marked as sent or published", bool(refusals) and refusals[0].lineno < first_effect, za.mod,
+              refusals[0] if refusals else pnode, witness=f"frame of '': {show(norm_empty(P['normal']))}; control frame: {show(P['control'])}; refusal: {U(refusals[0])[:60] if refusals else 'none'}", key='empty-topic-refused')
     # subscriber
     ps = za.paths('rs_init')
     rr.paths += len(ps)
